@@ -1,28 +1,30 @@
-import Zstd.Proofs.EncParse
+import Zstd.Proofs.EncReal
 /-
 C16 — compression is correct for every well-behaved user-supplied matcher.
 
 `ValidMatcher w script data` (Model/FrameCompressor.lean) is the meaning of "well-behaved": per
-`get_next_space` call a non-empty space of at most min(declared window, 128 KiB) bytes; for every
+`get_next_space` call a non-empty space of at most 128 KiB (the trait's documented maximum); for every
 non-constant block a parse that regenerates exactly the block on top of everything before it, with
 `3 ≤ match_len` and `1 ≤ offset ≤ min w (bytes before the match position in the frame)`; a window
 the one-byte descriptor can express.  It is executable (`validMatcherB`) and the correspondence run
 evaluates it on every script the harness generates.
 
-Exclusions that are NOT part of the property's wording and are therefore reported as findings:
-  F4   all literal lengths 0 / all match lengths 3 in a block  → panic in the FSE normaliser
-  F10  > 1024 literals of one value in a non-constant block    → panic in the Huffman builder
-  F11  spaces larger than the DECLARED window (`space_le`)      → libzstd rejects the frame
-  (u32) offsets ≥ 2^32 − 3 are truncated by `(offset + 3) as u32` (needs > 4 GiB of input)
-F4/F10 live inside the entropy coders, which are parameters here (`Coders`): they appear as the
-hypothesis "the coders do not fault" and in `faults_only_in_entropy_coders`.
+History of exclusions (all were findings; none is part of the statements any more):
+  F4   all literal lengths 0 / all match lengths 3 in a block  → panic in the FSE normaliser   FIXED afe35d5
+  F10  > 1024 literals of one value in a non-constant block    → panic in the Huffman builder  FIXED 8671d4a
+  F13  spaces larger than the DECLARED window                  → libzstd rejected the frame    FIXED (fixes/F13.diff):
+       the header now declares max(window_size(), 128 KiB), so `space_le` is just "≤ 128 KiB"
+Remaining explicit side condition (observation, not reachable without > 4 GiB of input):
+  (u32) offsets ≥ 2^32 − 3 are truncated by `(offset + 3) as u32`
+The entropy coders are parameters here (`Coders`); "the coders do not fault" is a hypothesis of the
+frame-level `_partial` theorem and `faults_only_in_entropy_coders` says nothing else can fault.
 -/
 namespace Zstd.Props.C16
 open Zstd Zstd.Model Zstd.Model.Enc Zstd.Proofs.Enc
 
 /-- non-vacuity of `ValidMatcher`: for any data, the matcher that hands out spaces of `S` bytes and
 reports every block as literals only is well-behaved -/
-theorem valid_matcher_exists (w S : Nat) (hw : w ≤ 2 ^ 41) (hS : 0 < S) (hS' : S ≤ min (declaredWindow w) Gen.maxBlockSize)
+theorem valid_matcher_exists (w S : Nat) (hw : w ≤ 2 ^ 41) (hS : 0 < S) (hS' : S ≤ Gen.maxBlockSize)
     (data : List Byte) :
     ValidMatcher w (fun i => ⟨S, ⟨[], (data.drop (i * S)).take S⟩⟩) data := by
   have hstart : ∀ i, blockStart (fun i => (⟨S, ⟨[], (data.drop (i * S)).take S⟩⟩ : MBlock)) i = i * S := by
@@ -64,12 +66,12 @@ theorem compress_with_matcher_correct_partial {H : Type} (R : H → Spec.Huffman
     (FastPre w (declaredWindow w)) hm.window_le hm.space_pos
     (by rw [hc]; exact emit_fastest_decodes R w _ enc henc) (fun st => tracks_none R st {}) _ frame c' hrun
   intro i _
-  exact ⟨Nat.le_trans (List.length_take_le _ _) (hm.space_le i), hm.parse_ok i⟩
+  exact ⟨by rw [min_declared_block w hm.window_le]; exact Nat.le_trans (List.length_take_le _ _) (hm.space_le i), hm.parse_ok i⟩
 
 /-- the same at the Uncompressed level needs nothing of the parses -/
 theorem compress_with_matcher_uncompressed {H : Type} (hash : Bool) (enc : BlockEnc H) (c : Compressor H)
     (hc : c.level = .uncompressed) (w : Nat) (script : Nat → MBlock) (data : List Byte) (frags : List Nat)
-    (hw : w ≤ 2 ^ 41) (hsp : ∀ i, 0 < (script i).space ∧ (script i).space ≤ min (declaredWindow w) Gen.maxBlockSize) :
+    (hw : w ≤ 2 ^ 41) (hsp : ∀ i, 0 < (script i).space ∧ (script i).space ≤ Gen.maxBlockSize) :
     ∃ frame c', compressFrame hash enc c w script data frags = .ok (frame, c') ∧
       Spec.decodeFrame frame = some (specResult hash w data frame) := by
   have hspace : ∀ i, 0 < (script i).space := fun i => (hsp i).1
@@ -86,24 +88,19 @@ theorem compress_with_matcher_uncompressed {H : Type} (hash : Bool) (enc : Block
     (fun _ blk _ => blk.length ≤ min (declaredWindow w) Gen.maxBlockSize) hw hspace
     (by rw [hc]; exact emit_uncompressed_decodes _ _ enc) (fun _ => trivial) _ frame c' hrun
   intro i _
+  rw [min_declared_block w hw]
   exact Nat.le_trans (List.length_take_le _ _) (hsp i).2
 
-/-- no block has every literal length 0 or every match length 3 (F4) -/
-def F4Free (p : Parse) : Prop :=
-  p.seqs = [] ∨ ((∃ s ∈ p.seqs, s.lits ≠ []) ∧ (∃ s ∈ p.seqs, s.matchLen ≠ 3))
-/-- not: more than 1024 literals, all of one value (F10) -/
-def F10Free (p : Parse) : Prop :=
-  ¬ ((parseLiterals p).length > 1024 ∧ isConstant (parseLiterals p) = true)
-
-/-- C16 at full strength for the real block encoder over real entropy coders `cd`, with the three
-exclusions that are findings spelled out.  NOT proved here: needs `BlockEncCorrect` for
-`compressBlock cd` and totality of `cd` on F4/F10-free input (C12 / C13 slices). -/
+/-- C16 at full strength, a CLOSED statement: the real block encoder `compressBlockReal`
+(`compressBlock` over `realCoders`, the merged C12/C13 models; `Model/EncCoders.lean`), whose
+executable model is compared byte for byte with the code on every run.  No exclusion is left except the `u32`
+offset condition: F4, F10 and F13 are repaired.  NOT proved here: needs `BlockEncCorrect` for
+`compressBlock cd` and totality of `cd` (C12 / C13 theorems). -/
 def compress_with_matcher_correct_full : Prop :=
-  ∀ {H : Type} (cd : Coders H) (hash : Bool) (c : Compressor H), c.level = .fastest →
+  ∀ (hash : Bool) (c : Compressor Huf.EncTable), c.level = .fastest →
     ∀ (w : Nat) (script : Nat → MBlock) (data : List Byte) (frags : List Nat),
     ValidMatcher w script data → (w + 3 < 2 ^ 32 ∨ data.length + 3 < 2 ^ 32) →
-    (∀ i, F4Free (script i).parse ∧ F10Free (script i).parse) →
-    ∃ frame c', compressFrame hash (compressBlock cd) c w script data frags = .ok (frame, c') ∧
+    ∃ frame c', compressFrame hash compressBlockReal c w script data frags = .ok (frame, c') ∧
       Spec.decodeFrame frame = some (specResult hash w data frame)
 
 /-- **Sequence-to-code mapping uses in-range values only**: for a valid parse of a block of at most
@@ -337,5 +334,42 @@ theorem faults_only_in_entropy_coders {H : Type} (cd : Coders H) (w : Nat) (pre 
         subst h
         exact Or.inr ⟨_, hc⟩
       · cases h
+
+/-- **F10, repaired, at the level of the format**: more than 1024 literals of ONE value in a block
+that is not constant.  The real `compress_literals` no longer reaches the Huffman table builder
+(`assert!(amount >= 2)`): it writes an RLE literals section, remembers no table, and the strict Spec
+decodes that section to exactly the literals, leaving the decoder's table alone — so the invariant
+`Tracks` is preserved on this path without any appeal to the Huffman theorems. -/
+theorem f10_repaired_single_value_literals (b : Byte) (t : List Byte) (prev : Option Huf.EncTable)
+    (hall : (b :: t).all (fun x => x == b) = true) (hlen : (b :: t).length < 2 ^ 20)
+    (rest : List Byte) (dprev : Option Spec.Huffman.Table) :
+    ∃ bytes, realCoders.compressLiterals (b :: t) prev = .ok (bytes, none) ∧
+      Spec.decodeLiterals (bytes ++ rest) dprev = some (b :: t, bytes.length, dprev) :=
+  compressLiterals_single_value b t prev hall hlen rest dprev
+
+/-- the closed full statement follows from exactly two obligations about the real coders -/
+theorem compress_with_matcher_correct_full_of (R : Huf.EncTable → Spec.Huffman.Table → Prop)
+    (henc : ∀ w, BlockEncCorrect R w (declaredWindow w) compressBlockReal)
+    (htotal : ∀ (w : Nat) (script : Nat → MBlock) (data : List Byte), ValidMatcher w script data →
+      (w + 3 < 2 ^ 32 ∨ data.length + 3 < 2 ^ 32) → ∀ i st, ∃ r, compressBlockReal (script i).parse st = .ok r) :
+    compress_with_matcher_correct_full := by
+  intro hash c hc w script data frags hm hu
+  exact compress_with_matcher_correct_partial R hash compressBlockReal c hc w script data frags hm (henc w)
+    (htotal w script data hm hu)
+
+/-- non-vacuity, end to end, by kernel evaluation: a 47-byte input, a scripted matcher with window
+1024 that reports two matches (offsets 12 and 39), read in fragments of 3 and 1 bytes: the script is a
+`ValidMatcher` script, the REAL coders produce a block that is KEPT as a compressed block (Huffman-free
+raw literals, three FSE tables, interleaved sequence bitstream), and the strict Spec decodes the frame
+to the input, consuming all of it -/
+def exData : List Byte := [97,98,99,100,101,102,103,104,105,106,107,108,97,98,99,100,101,102,103,104,105,106,107,108,
+  97,98,99,100,101,102,103,104,105,106,107,108,120,121,122,97,98,99,100,101,102,103,104]
+def exScript : Nat → MBlock := fun _ => ⟨64, ⟨[⟨exData.take 12, 12, 24⟩, ⟨[120, 121, 122], 39, 8⟩], []⟩⟩
+def exFrame : Option (List Byte) := (compress true compressBlockReal .fastest 1024 exScript exData [3, 1]).toOption
+
+example : validMatcherB 1024 exScript exData 3 0 = true ∧
+    (exFrame.map (fun f => (f.drop 6).take 3)) = some [45, 1, 0] ∧        -- last, type 2 (compressed), 37 bytes
+    (exFrame.bind (fun f => (Spec.decodeFrame f).map (fun r => (r.content, r.consumed == f.length)))) = some (exData, true) := by
+  decide +kernel
 
 end Zstd.Props.C16
